@@ -44,8 +44,8 @@ def rbf_case(p):
     ns, nu, k = p['ns'], p['nu'], p['k']
     n = ns + nu
     scale = p.get('scale', 1.0)
-    C = rng.normal(size=(k, n)) * scale
-    X = rng.normal(size=(p['rows'], n)) * scale
+    C = rng.normal(size=(k, n)) * scale + p.get('mean', 0.0)
+    X = rng.normal(size=(p['rows'], n)) * scale + p.get('mean', 0.0)
     if p.get('hit_center'):
         X[0] = C[0]                      # radius exactly the offset
     ep = p['ep']
@@ -100,6 +100,9 @@ def gen_rbf_params(rng, n):
     # one large batch (many rows x many centres): every row must be transformed
     out.append(dict(test='rbf', rbf='gaussian', seed=int(rng.integers(1 << 30)), ns=2, nu=1, k=40, rows=3000, shape=0.5,
                     offset=None, ep=False, hit_center=False, scale=1.0))
+    # a larger one on data far from the origin (mean 1000, spread 1): distances must be computed from differences
+    out.append(dict(test='rbf', rbf='gaussian', seed=int(rng.integers(1 << 30)), ns=5, nu=3, k=200, rows=3000, shape=0.5,
+                    offset=None, ep=True, hit_center=True, scale=1.0, mean=1000.0))
     return out
 
 
